@@ -76,7 +76,7 @@ def add_branching_adapter(rng, spec):
     """make one pass-through adapter fan out: a link `src >> Scale >> a` gets a sibling `... Scale >> chain >> b`
     attached to the same Scale object ("via")"""
     cands = [li for li, l in enumerate(spec["links"]) if spec["comps"][l["src"]]["kind"] == "time" and "via" not in l
-             and all(a[0] == "scale" for a in l["ads"])]
+             and all(a[0] in ("scale", "dfix") for a in l["ads"])]   # (DelayFixed may branch; DelayToPull may not)
     if not cands:
         return spec
     li = rng.choice(cands)
